@@ -27,6 +27,7 @@ EXPLANATION = (
     "and the key looked up for batch position p of an array of rank R with event rank E is p - (R - E); in tensor_to_data the batch "
     "shape has -min(dims) entries - all three evaluated on a grid of small ranks / key sets by the analyser's integer evaluator. "
     "R19.4: materialize substitutes an arange for EVERY integer-typed input of its argument, named and sized after that input."
+    ' R19.4 (second clause): an index range is substituted only for scalar-shaped integer inputs. R19.10 (= C04 R04.5): the Number and the Tensor branch of an eager_subs compute the same function of the index. R19.11 (= C02 R02.23): Binary rules, among them Binary(op, Align, Align), re-apply the op with the operands in the order received.'
 )
 ASSUMPTIONS = ["value-level round trips (size-1 squeezing, dtype handling, reshape of packed batch dims) are not decided",
                "ops.permute(x, p) places source axis p[j] at position j (numpy.transpose / torch.permute semantics)"]
